@@ -890,16 +890,10 @@ fn classify(o: &Opts, refs: &Refs, h: &sam::Header, recs: &[RecordBuf]) -> V {
 /// that still rejects it rejects a well-formed stream, which is a failure of the property.
 fn justify_skip(o: &Opts, refs: &Refs, h: &sam::Header, recs: &[RecordBuf], msg: &str) -> V {
     let o2 = Opts { enc: "all:none".into(), ..o.clone() };
-    let mut recs2 = recs.to_vec();
-    for r in recs2.iter_mut() {
-        if is_mapped_missing_bases(r) {
-            let n: usize = r.cigar().as_ref().iter().filter(|op| op.kind().consumes_read()).map(|op| op.len()).sum();
-            *r.sequence_mut() = Sequence::from(vec![b'N'; n]);
-            *r.quality_scores_mut() = QualityScores::from(vec![40u8; n]);
-        }
-    }
+    // (since /repo 0049c20 a mapped record with SEQ `*` is accepted: it is no reason to refuse a stream)
+    let recs2 = recs.to_vec();
     match plain(&o2, refs, h, &recs2) {
-        V::Skip(m2) => V::Fail(("write-rejected-well-formed-stream".into(), format!("{msg}; still rejected without compression and with every mapped record given bases: {m2}"))),
+        V::Skip(m2) => V::Fail(("write-rejected-well-formed-stream".into(), format!("{msg}; still rejected without compression: {m2}"))),
         _ => V::Skip(msg.to_string()),
     }
 }
@@ -1101,6 +1095,11 @@ fn rt_content(o: &Opts, refs: &Refs, h: &sam::Header, recs: &[RecordBuf], file: 
                 && x.mate_reference_sequence_id() == y.reference_sequence_id()
                 && y.mate_reference_sequence_id() == x.reference_sequence_id()
         };
+        // class: a record that is not flagged unmapped, has bases and no CIGAR is stored as one
+        // soft clip (/repo fe42e80, a591b36) and reads back with CIGAR <len>S, everything else equal
+        if d == [F_CIGAR] && !e.flags().is_unmapped() && el[F_CIGAR] == "*" && el[F_SEQ] != "*" && al[F_CIGAR] == format!("{}S", e.sequence().len()) {
+            return fail("cram-missing-cigar-with-bases-reads-back-as-soft-clip", detail);
+        }
         if d.iter().all(|k| mate_cols.contains(k)) && ch.len() >= 2 && !plain_pair {
             return fail("cram-intra-slice-mate-fields-recomputed", detail);
         }
